@@ -554,7 +554,7 @@ def main():
     # ---- 5. extra runtime checks of this property (C18 configurations, C19 threads, C20 faults)
     for name in extra:
         import extra as X
-        r = getattr(X, name)(tier, seed, runner, own_history if (own_history and name == 'ownreplay') else lines)
+        r = getattr(X, name)(tier, seed, runner, own_history if (own_history and name in ('ownreplay', 'ownsafe')) else lines)
         cov[name] = r.get('coverage', {})
         if name == 'configs':
             # level translation_validation: its own keys at the top level of coverage
